@@ -31,6 +31,9 @@ Record c16case := mkCase {
   c_rx : list (bytes * option (list (bytes * bool)));   (* regexp oracle: pattern -> compiled? -> string -> match *)
   c_reads : list (rreq * list rres);                     (* results at P1..P6 *)
   c_tail : list obsop;    (* requests sent to the child after P5; P6 = the parent read once more *)
+  (* then phases: requests (configuration changes, restarts, branch requests) followed by reads of
+     named versions; every phase lists the same reads, and no phase but the first writes *)
+  c_phases : list (list obsop * list ((vref * rreq) * rres));
 }.
 
 Definition rx_of (tbl : list (bytes * option (list (bytes * bool)))) (pat : bytes) : option (bytes -> bool) :=
@@ -67,6 +70,9 @@ Definition rres_eqb (a b : rres) : bool :=
   | XCounts x, XCounts y => mset_eqb (fun p q => bytes_eqb (fst p) (fst q) && Z.eqb (snd p) (snd q)) x y
   | XKVs x, XKVs y => mset_eqb (fun p q => N.eqb (fst p) (fst q) && obj_eqb (snd p) (snd q)) x y
   | XBytes x, XBytes y => opt_eqb bytes_eqb x y
+  | XTimes x, XTimes y => mset_eqb (fun p q => bytes_eqb (fst p) (fst q) && bytes_eqb (snd p) (snd q)) x y
+  | XKVOs x, XKVOs y => mset_eqb (fun p q => N.eqb (fst p) (fst q) && opt_eqb obj_eqb (snd p) (snd q)) x y
+  | XBool x, XBool y => Bool.eqb x y
   | XErr, XErr => true
   | XPanic, XPanic => true
   | _, _ => false
@@ -87,8 +93,12 @@ Fixpoint replay (V : variant) (s : state) (h : list obsop) : option state * bool
       match c with
       | Panic => (None, okc)
       | _ =>
+          let src := match ob_op ob, st_branch s' with
+                     | OpOnBranch _, Some b => s_data (b_head b)
+                     | _, _ => s_data (st_head s')
+                     end in
           let okb := forallb (fun p => opt_eqb obj_eqb (snd p)
-                                 (option_map (fun o => selectFields o [] sh11) (nget (fst p) (m_data (st_mem s')))))
+                                 (option_map (fun o => selectFields o [] sh11) (nget (fst p) src)))
                              (ob_back ob) in
           let '(fin, ok) := replay V s' r in (fin, okc && okb && ok)
       end
@@ -98,15 +108,29 @@ Definition final_ops (s : state) : list op :=
   if st_locked s then [OpNewVersion] else [OpCommit; OpNewVersion].
 
 (* the states at P1, P3 (= P2), P5 (= P4) and P6 *)
+(* the phases: each continues from the state the previous one left *)
+Fixpoint phases_ok (V : variant) (rx : bytes -> option (bytes -> bool)) (s : state)
+         (ps : list (list obsop * list ((vref * rreq) * rres))) : bool :=
+  match ps with
+  | [] => true
+  | (ops, reads) :: r =>
+      match replay V s ops with
+      | (Some s', ok) =>
+          ok && forallb (fun q => match read_ref rx V s' (fst (fst q)) (snd (fst q)) with
+                                  | Some x => rres_eqb x (snd q)
+                                  | None => false end) reads
+          && phases_ok V rx s' r
+      | (None, _) => false
+      end
+  end.
+
 Definition point_states (V : variant) (s : state) (tail : list obsop) : option (state * state * state * state * bool) :=
   match run V s (final_ops s) with
   | Ok s2 =>
-      match reload V s2 with
-      | Ok s3 => match replay V s3 tail with
-                 | (Some s4, ok) => Some (s, s2, s3, s4, ok)
-                 | (None, _) => None
-                 end
-      | _ => None
+      let s3 := reload V s2 in
+      match replay V s3 tail with
+      | (Some s4, ok) => Some (s, s2, s3, s4, ok)
+      | (None, _) => None
       end
   | _ => None
   end.
@@ -130,6 +154,7 @@ Definition model_ok_gen (V : variant) (c : c16case) : bool :=
       | Some ps =>
           ok && (let '(_, _, _, _, okt) := ps in okt)
           && forallb (fun rr => points_eqb (points V (rx_of (c_rx c)) ps (fst rr)) (snd rr)) (c_reads c)
+          && (let '(_, _, _, s4, _) := ps in phases_ok V (rx_of (c_rx c)) s4 (c_phases c))
       | None => false
       end
   | (None, ok) => ok
@@ -138,18 +163,32 @@ Definition model_ok_gen (V : variant) (c : c16case) : bool :=
 (* ---- the property itself, evaluated on what the implementation returned ----
    0 holds; 1 keys/keyrange differ between read paths; 2 field lists or counters differ;
    3 values differ (key, all, keyvalues, keyrangevalues); 4 query results differ;
-   5 schema metadata differ; 6 a field merge rule is violated; 7 a request panicked *)
+   5 schema metadata differ; 6 a field merge rule is violated; 7 a request panicked;
+   8 fieldtimes differ; 9 the JSON schema in force differs.  8 and 9 are reported only when
+   nothing else fails (they are the two defects repaired by C16-7/8-fix.diff); 10 a version read in
+   two phases answers differently in a history with a configuration hazard (repair C16-9); 11 the
+   read paths differ in a history where a restart loses the head of master (datastore defect) *)
 Definition req_class (r : rreq) : nat :=
   match r with
-  | RKeys | RKeyRange _ _ => 1
+  | RKeys | RKeyRange _ _ | RHeadKey _ => 1
   | RFields | RFieldCounts => 2
-  | RKey _ _ _ | RAll _ _ | RKeyValues _ _ _ | RKeyRangeValues _ _ _ _ => 3
+  | RKey _ _ _ | RAll _ _ | RKeyValues _ _ _ _ | RKeyRangeValues _ _ _ _ _ => 3
   | RQuery _ _ _ _ => 4
-  | RMeta _ => 5
+  | RMeta _ | RHeadMeta _ => 5
+  | RFieldTimes => 8
+  | RSchemaInForce => 9
   end%nat.
 
 Definition all_same (l : list rres) : bool :=
   match l with [] => true | x :: r => forallb (rres_eqb x) r end.
+(* fieldtimes has no store path before repair 7 (HTTP 400 on committed versions, as documented):
+   only the answers that exist are compared *)
+Definition is_xerr (r : rres) : bool := match r with XErr => true | _ => false end.
+Definition same_answers (rr : rreq * list rres) : bool :=
+  match fst rr with
+  | RFieldTimes => all_same (filter (fun x => negb (is_xerr x)) (snd rr))
+  | _ => all_same (snd rr)
+  end.
 
 Definition mentions (body : obj) (f : bytes) : bool := omem f body.
 (* f is the _user/_time companion of a field the request mentions *)
@@ -193,7 +232,10 @@ Fixpoint rules_walk (known : list (N * option obj)) (h : list obsop) : bool :=
   match h with
   | [] => true
   | ob :: r =>
-      let known' := fold_left (fun acc p => @aset N _ N.eqb (fst p) (snd p) acc) (ob_back ob) known in
+      let known' := match ob_op ob with
+                    | OpOnBranch _ => known
+                    | _ => fold_left (fun acc p => @aset N _ N.eqb (fst p) (snd p) acc) (ob_back ob) known
+                    end in
       let here :=
         match ob_op ob, ob_cls ob with
         | OpPost key body _ user conds replace t, OOk =>
@@ -209,14 +251,81 @@ Fixpoint rules_walk (known : list (N * option obj)) (h : list obsop) : bool :=
       here && rules_walk known' r
   end.
 
+(* the same read in two phases must give the same answer (nothing is written in between) *)
+Fixpoint zip_same (a b : list ((vref * rreq) * rres)) : option rreq :=
+  match a, b with
+  | x :: a', y :: b' => if rres_eqb (snd x) (snd y) then zip_same a' b' else Some (snd (fst x))
+  | _, _ => None
+  end.
+Definition phases_differ (c : c16case) : option rreq :=
+  match c_phases c with
+  | [] => None
+  | p0 :: r => fold_left (fun acc p => match acc with Some _ => acc | None => zip_same (snd p0) (snd p) end) r None
+  end.
+
+(* the configuration hazards repaired by C16-9: at a restart the "inmemory" setting names the
+   second branch before it exists, or a version that is still open *)
+Definition all_ops (c : c16case) : list op :=
+  map ob_op (c_hist c) ++ [OpCommit; OpNewVersion] ++ map ob_op (c_tail c) ++ flat_map (fun p => map ob_op (fst p)) (c_phases c).
+(* [br]: length of the branch chain, whether its head is committed, the master version it left *)
+Fixpoint hazard_walk (ops : list op) (cfg : config) (mlen : nat) (mlocked : bool)
+         (br : option (nat * bool * nat)) (lost : bool) : bool :=
+  match ops with
+  | [] => false
+  | o :: r =>
+      match o with
+      | OpSetConfig c => hazard_walk r c mlen mlocked br lost
+      | OpReload =>
+          (if lost
+           then
+             (* the committed leaf of master has a child on the branch only: after the restart the
+                repo manager no longer finds the head of master (datastore defect, C03/C07);
+                neuronjson's Initialize then loads neither the metadata nor the HEAD db of master *)
+             match br with Some (_, _, from) => Nat.eqb from mlen | None => false end
+           else
+             (cfg_branch cfg && match br with None => true | Some _ => false end)
+             || existsb (fun ref => match ref with
+                                    | VM a => negb (Nat.ltb a mlen || (Nat.eqb a mlen && mlocked))
+                                    | VB i => match br with
+                                              | Some (bl, bk, _) => negb (Nat.ltb i bl || (Nat.eqb i bl && bk))
+                                              | None => false end
+                                    end) (cfg_static cfg))
+          || hazard_walk r cfg mlen mlocked br lost
+      | OpCommit => hazard_walk r cfg mlen true br lost
+      | OpNewVersion => if mlocked then hazard_walk r cfg (S mlen) false br lost else hazard_walk r cfg mlen mlocked br lost
+      | OpBranch from => hazard_walk r cfg mlen mlocked (match br with None => Some (O, false, from) | b => b end) lost
+      | OpOnBranch OpCommit => hazard_walk r cfg mlen mlocked (option_map (fun p : nat * bool * nat => (fst (fst p), true, snd p)) br) lost
+      | OpOnBranch OpNewVersion =>
+          hazard_walk r cfg mlen mlocked
+            (option_map (fun p : nat * bool * nat => if snd (fst p) then (S (fst (fst p)), false, snd p) else p) br) lost
+      | _ => hazard_walk r cfg mlen mlocked br lost
+      end
+  end.
+(* (an approximation of the history that is exact for accepted requests; the driver's hazard
+   cases contain no rejected commit / newversion / branch) *)
+Definition lost_head_hazard (c : c16case) : bool := hazard_walk (all_ops c) no_cfg O false None true.
+Definition config_hazard (c : c16case) : bool := hazard_walk (all_ops c) no_cfg O false None false.
+Definition init_hazard (c : c16case) : bool := lost_head_hazard c || config_hazard c.
+Definition hazard_class (c : c16case) : nat := if lost_head_hazard c then 11%nat else 10%nat.
+
 Definition spec_class (c : c16case) : nat :=
-  if existsb (fun ob => match ob_cls ob with OPanic => true | _ => false end) (c_hist c ++ c_tail c)
+  if existsb (fun ob => match ob_cls ob with OPanic => true | _ => false end)
+            (c_hist c ++ c_tail c ++ flat_map fst (c_phases c))
+     || existsb (fun p => existsb (fun q => is_xpanic (snd q)) (snd p)) (c_phases c)
      || existsb (fun rr => existsb is_xpanic (snd rr)) (c_reads c) then 7%nat
   else if negb (rules_walk [] (c_hist c)) then 6%nat
   else
-    match find (fun rr => negb (all_same (snd rr))) (c_reads c) with
-    | Some rr => req_class (fst rr)
-    | None => 0%nat
+    match find (fun rr => negb (same_answers rr) && Nat.ltb (req_class (fst rr)) 8) (c_reads c) with
+    | Some rr => if init_hazard c then hazard_class c else req_class (fst rr)
+    | None =>
+      match phases_differ c with
+      | Some r => if init_hazard c then hazard_class c else req_class r
+      | None =>
+        match find (fun rr => negb (same_answers rr)) (c_reads c) with
+        | Some rr => req_class (fst rr)
+        | None => 0%nat
+        end
+      end
     end.
 
 Fixpoint classify_from (i : nat) (l : list c16case) : list (nat * nat) :=
@@ -226,5 +335,7 @@ Fixpoint classify_from (i : nat) (l : list c16case) : list (nat * nat) :=
               if Nat.eqb k 0 then classify_from (S i) r else (i, k) :: classify_from (S i) r
   end.
 Definition c16_spec_fail (l : list c16case) : list (nat * nat) := classify_from 0 l.
-Definition c16_model_mismatch (V : variant) (l : list c16case) : list nat :=
-  find_idx (fun c => negb (model_ok_gen V c)) l.
+(* the implementation must agree with one of the accepted models (the repaired code, or the code
+   with only the first six repairs while C16-7/8 are pending) *)
+Definition c16_model_mismatch (Vs : list variant) (l : list c16case) : list nat :=
+  find_idx (fun c => negb (existsb (fun V => model_ok_gen V c) Vs)) l.
